@@ -190,7 +190,9 @@ theorem frame_writeColumn {f : Frame} {col index name} {r c : Nat} (h : colTarge
   repeat' split at hp
   all_goals subst hp
   all_goals try rfl
-  rename_i nm hnm _ _ _ c0 hc0 _ ct hct
+  rename_i nm hnm _ _ _ c0 hc0 _ ct hct _ rows' hloop
+  have e : rows' = (writeColLoop ct.2 c0 f.rows col).1 := by rw [hloop]
+  subst e
   have hne : c0 ≠ c := by
     intro e; subst e
     apply h
